@@ -326,8 +326,7 @@ def run_property(prop, tier, seed, verbose=False, write_evidence=True):
             run.gen_contract(c)
         else:
             run.functions.append(dict(FuncSrc.get(c.fn_inner).provenance(), trusted=True)) if not c.trusted else None
-    for t in run.theorems:
-        run.gen_theorem(t)
+    run.gen_theorems_parallel()
     tgen = time.time() - t0
     run.discharge()
     tsolve = time.time() - t0 - tgen
